@@ -22,14 +22,13 @@ theorem notations_agree_en_refuted : ¬ notations_agree_en := by
   revert this
   decide
 
-/-- further witnesses (each is a finding of its own): `whom`, "Who eat?"/"Who eats?", the AttributeError of the
-    dependency side, "by me"/"by I", the objectless passive -/
-example : (realize .phrase ⟨.np ⟨1, .s, .n⟩, .other, .p, some (.np ⟨2, .s, .m⟩), []⟩ { int := some .wod }).map (·.main)
-    ≠ (realize .dep ⟨.np ⟨1, .s, .n⟩, .other, .p, some (.np ⟨2, .s, .m⟩), []⟩ { int := some .wod }).map (·.main) := by decide
+/-- further witnesses (each is a finding of its own): "Who eat?"/"Who eats?", a prepositional question whose first
+    prepositional complement does not fit while the second does (constituents only look at the first), "by me"/"by I",
+    the objectless passive.  (`whom` and the AttributeError of the dependency side were repaired: 172fd46, 38d9ad6.) -/
 example : (realize .phrase ⟨.np ⟨1, .p, .n⟩, .other, .p, none, []⟩ { int := some .wos }).map (·.main)
     ≠ (realize .dep ⟨.np ⟨1, .p, .n⟩, .other, .p, none, []⟩ { int := some .wos }).map (·.main) := by decide
-example : (realize .phrase ⟨.np ⟨1, .s, .n⟩, .other, .p, none, [(s "in", ⟨3, .s, .n⟩)]⟩ { int := some .whe }).map (·.main)
-    ≠ (realize .dep ⟨.np ⟨1, .s, .n⟩, .other, .p, none, [(s "in", ⟨3, .s, .n⟩)]⟩ { int := some .whe }).map (·.main) := by decide
+example : (realize .phrase ⟨.np ⟨1, .s, .n⟩, .other, .p, none, [(s "with", ⟨2, .s, .n⟩), (s "in", ⟨3, .s, .n⟩)]⟩ { int := some .whe }).map (·.main)
+    ≠ (realize .dep ⟨.np ⟨1, .s, .n⟩, .other, .p, none, [(s "with", ⟨2, .s, .n⟩), (s "in", ⟨3, .s, .n⟩)]⟩ { int := some .whe }).map (·.main) := by decide
 example : (realize .phrase ⟨.pro ⟨.p1, .s, .m⟩, .other, .p, some (.np ⟨2, .s, .n⟩), []⟩ { pas := true }).map (·.main)
     ≠ (realize .dep ⟨.pro ⟨.p1, .s, .m⟩, .other, .p, some (.np ⟨2, .s, .n⟩), []⟩ { pas := true }).map (·.main) := by decide
 example : (realize .phrase ⟨.np ⟨1, .p, .n⟩, .other, .p, none, []⟩ { pas := true }).map (·.main)
@@ -49,7 +48,7 @@ theorem agr_agree (sp : Spec) (ty : Typ) (hc : C08Cond sp ty = true) :
     | none => rfl
     | some i =>
       simp only [Bool.and_eq_true, Bool.or_eq_true, Bool.not_eq_true'] at hint
-      obtain ⟨⟨⟨_, _⟩, hwos⟩, _⟩ := hint
+      obtain ⟨⟨_, hwos⟩, _⟩ := hint
       cases i
       case wos | was =>
         have ha : agrOfArg subj = ⟨.p3, .s⟩ := by simpa [subjAgrOf] using hwos
@@ -68,7 +67,7 @@ theorem agr_agree (sp : Spec) (ty : Typ) (hc : C08Cond sp ty = true) :
         | none => rfl
         | some i =>
           simp only [Bool.and_eq_true, Bool.or_eq_true, Bool.not_eq_true'] at hint
-          obtain ⟨⟨⟨_, _⟩, hwos⟩, _⟩ := hint
+          obtain ⟨⟨_, hwos⟩, _⟩ := hint
           cases i
           case wos | was =>
             have ha : (⟨.p3, a.n⟩ : Agr) = ⟨.p3, .s⟩ := by simpa [subjAgrOf, agrOfArg] using hwos
